@@ -2,7 +2,7 @@
 //! regression scores, silhouette, Pearson coefficients) on generated inputs; emits Coq cases for
 //! C05/Corr.v and evaluates the permutation-invariance oracle on the Rust side.
 use linfa::prelude::*;
-use ndarray::{Array1, Array2};
+use ndarray::{s, Array1, Array2, ArrayView1, ArrayView2, ShapeBuilder};
 use std::collections::BTreeMap;
 use std::fmt::Display;
 use vh::*;
@@ -497,7 +497,11 @@ fn gen_roc(cx: &mut Ctx, thorough: bool) {
 // =====================================================================================
 fn reg_single(a: &[f64], b: &[f64]) -> Result<Vec<f64>, String> {
     let (a, b) = (Array1::from(a.to_vec()), Array1::from(b.to_vec()));
-    guarded(move || -> Result<Vec<f64>, String> {
+    reg_single_v(a.view(), b.view())
+}
+/// the eight single-target scores on two views of any layout
+fn reg_single_v(a: ArrayView1<f64>, b: ArrayView1<f64>) -> Result<Vec<f64>, String> {
+    guarded(std::panic::AssertUnwindSafe(move || -> Result<Vec<f64>, String> {
         let e = |r: linfa::error::Result<f64>| r.map_err(|e| format!("{}", e));
         Ok(vec![
             e(a.max_error(&b))?,
@@ -509,8 +513,109 @@ fn reg_single(a: &[f64], b: &[f64]) -> Result<Vec<f64>, String> {
             e(a.explained_variance(&b))?,
             e(a.mean_squared_log_error(&b))?,
         ])
-    })
+    }))
     .and_then(|x| x)
+}
+/// the same through `impl SingleTargetRegression for DatasetBase`: the receiver is a dataset whose targets are `a`
+fn reg_single_ds(a: ArrayView1<f64>, b: ArrayView1<f64>) -> Result<Vec<f64>, String> {
+    guarded(std::panic::AssertUnwindSafe(move || -> Result<Vec<f64>, String> {
+        let ds = DatasetBase::new(Array2::<f64>::zeros((a.len(), 1)), a);
+        let e = |r: linfa::error::Result<f64>| r.map_err(|e| format!("{}", e));
+        Ok(vec![
+            e(ds.max_error(&b))?,
+            e(ds.mean_absolute_error(&b))?,
+            e(ds.mean_squared_error(&b))?,
+            e(ds.median_absolute_error(&b))?,
+            e(ds.mean_absolute_percentage_error(&b))?,
+            e(ds.r2(&b))?,
+            e(ds.explained_variance(&b))?,
+            e(ds.mean_squared_log_error(&b))?,
+        ])
+    }))
+    .and_then(|x| x)
+}
+/// the eight multi-target scores on two matrix views: per score Ok(vector) or Err(message); Err outside = panic
+fn reg_multi_v(a: ArrayView2<f64>, b: ArrayView2<f64>, through_dataset: bool) -> Result<Vec<Result<Vec<f64>, String>>, String> {
+    guarded(std::panic::AssertUnwindSafe(move || {
+        let e = |r: linfa::error::Result<Array1<f64>>| r.map(|v| v.to_vec()).map_err(|e| format!("{}", e));
+        if through_dataset {
+            let ds = DatasetBase::new(Array2::<f64>::zeros((a.nrows(), 1)), a);
+            vec![
+                e(ds.max_error(&b)),
+                e(ds.mean_absolute_error(&b)),
+                e(ds.mean_squared_error(&b)),
+                e(ds.median_absolute_error(&b)),
+                e(ds.mean_absolute_percentage_error(&b)),
+                e(ds.r2(&b)),
+                e(ds.explained_variance(&b)),
+                e(ds.mean_squared_log_error(&b)),
+            ]
+        } else {
+            vec![
+                e(a.max_error(&b)),
+                e(a.mean_absolute_error(&b)),
+                e(a.mean_squared_error(&b)),
+                e(a.median_absolute_error(&b)),
+                e(a.mean_absolute_percentage_error(&b)),
+                e(a.r2(&b)),
+                e(a.explained_variance(&b)),
+                e(a.mean_squared_log_error(&b)),
+            ]
+        }
+    }))
+}
+
+// ---- views with a prescribed memory layout; the storage outside the view is NaN, so that any access
+//      outside the view poisons the result ----
+struct Strided1 {
+    store: Array1<f64>,
+    step: isize,
+}
+impl Strided1 {
+    fn new(v: &[f64], step: isize) -> Self {
+        let n = v.len();
+        let k = step.unsigned_abs();
+        let len = if n == 0 { 0 } else { (n - 1) * k + 1 };
+        let mut store = Array1::from_elem(len, f64::NAN);
+        for i in 0..n {
+            let pos = if step > 0 { i * k } else { (n - 1 - i) * k };
+            store[pos] = v[i];
+        }
+        Strided1 { store, step }
+    }
+    fn view(&self) -> ArrayView1<'_, f64> {
+        self.store.slice(s![..;self.step])
+    }
+}
+/// the layout ndarray's `.sum()` / `mapv` see: 0 = stride 1 (or empty), 2 = stride -1, 1 = any other stride
+fn lay1(v: &ArrayView1<f64>) -> u64 {
+    let st = v.strides()[0];
+    if v.len() == 0 || st == 1 { 0 } else if st == -1 { 2 } else { 1 }
+}
+const MAT_KINDS: u64 = 7;
+const MAT_KIND_NAMES: [&str; 7] = ["c_order", "f_order", "row_step_2", "f_order_rows_reversed", "col_step_2", "transposed", "c_order_rows_reversed"];
+/// storage for an n x q matrix (given by its rows) in one of seven layouts; `mat_view` gives the n x q view
+fn mat_store(rows: &[Vec<f64>], q: usize, kind: u64) -> Array2<f64> {
+    let n = rows.len();
+    match kind {
+        0 => Array2::from_shape_fn((n, q), |(i, j)| rows[i][j]),
+        1 => Array2::from_shape_fn((n, q).f(), |(i, j)| rows[i][j]),
+        2 => Array2::from_shape_fn((2 * n - 1, q), |(i, j)| if i % 2 == 0 { rows[i / 2][j] } else { f64::NAN }),
+        3 => Array2::from_shape_fn((n, q).f(), |(i, j)| rows[n - 1 - i][j]),
+        4 => Array2::from_shape_fn((n, 2 * q - 1), |(i, j)| if j % 2 == 0 { rows[i][j / 2] } else { f64::NAN }),
+        5 => Array2::from_shape_fn((q, n), |(j, i)| rows[i][j]),
+        _ => Array2::from_shape_fn((n, q), |(i, j)| rows[n - 1 - i][j]),
+    }
+}
+fn mat_view(store: &Array2<f64>, kind: u64) -> ArrayView2<'_, f64> {
+    match kind {
+        0 | 1 => store.view(),
+        2 => store.slice(s![..;2, ..]),
+        3 => store.slice(s![..;-1, ..]),
+        4 => store.slice(s![.., ..;2]),
+        5 => store.t(),
+        _ => store.slice(s![..;-1, ..]),
+    }
 }
 fn reg_multi(a: &Array2<f64>, b: &Array2<f64>) -> Result<Vec<Vec<f64>>, String> {
     let (a, b) = (a.clone(), b.clone());
@@ -605,7 +710,7 @@ fn gen_reg_column(r: &mut Sm64, n: usize, fam: u64) -> (Vec<f64>, Vec<f64>, bool
 }
 
 impl Ctx {
-    fn reg_case(&mut self, a: &[f64], b: &[f64], strided: bool, wellcond: bool, out: &[f64], fam: u64, form: &str) {
+    fn reg_case(&mut self, a: &[f64], b: &[f64], lay: u64, wellcond: bool, out: &[f64], fam: u64, form: &str) {
         let id = self.next_id();
         if !self.out.wanted(id) {
             return;
@@ -619,21 +724,25 @@ impl Ctx {
         // msle is well conditioned when each pair is equal or its log-ratio is not tiny
         let msle_on = wellcond && msle_ok && n <= 24 && a.iter().zip(b).all(|(x, y)| x == y || ((1.0 + x) / (1.0 + y)).ln().abs() > 1e-3);
         let desc = format!(
-            "{{\"metric\": \"regression\", \"family\": {}, \"form\": {}, \"strided\": {}, \"a_prediction\": {}, \"b_truth\": {}}}",
-            fam, jstr(form), strided, jf64s(a), jf64s(b)
+            "{{\"metric\": \"regression\", \"family\": {}, \"form\": {}, \"layout_of_truth\": {}, \"a_prediction\": {}, \"b_truth\": {}}}",
+            fam, jstr(form), lay, jf64s(a), jf64s(b)
         );
         let fams = format!("reg_family_{}", fam);
         let tags = ["reg", evtag, form, &fams[..]];
         self.out.bump(&fams);
         self.out.bump(&format!("reg_{}", form));
         self.out.bump(&format!("reg_n_mod8_{}", n % 8));
+        self.out.bump(&format!("reg_truth_layout_{}", lay));
+        if n > 16 && n % 2 == 0 && n <= 48 && wellcond {
+            self.out.bump("reg_even_length_17_to_48_with_oracle");
+        }
         self.out.bump(evtag);
         let coq = format!(
-            "CReg {{| rg_id := {}%N; rg_a := {}; rg_b := {}; rg_strided := {}; rg_oracle := {}; rg_msle := {}; rg_out := {} |}}",
-            id, cvec64(a), cvec64(b), cbool(strided), cbool(wellcond && n <= 48), cbool(msle_on), cvec64(out)
+            "CReg {{| rg_id := {}%N; rg_a := {}; rg_b := {}; rg_lay := {}%N; rg_oracle := {}; rg_msle := {}; rg_out := {} |}}",
+            id, cvec64(a), cvec64(b), lay, cbool(wellcond && n <= 48), cbool(msle_on), cvec64(out)
         );
         let nonconst = b.iter().any(|x| *x != b[0]);
-        let key = if n >= 2 && nonconst { Some(fnv_f64s(&[a, b].concat(), 3 + strided as u64)) } else { None };
+        let key = if n >= 2 && nonconst { Some(fnv_f64s(&[a, b].concat(), 3 + lay)) } else { None };
         self.out.case(id, &coq, &tags, &desc, key);
     }
 }
@@ -643,7 +752,7 @@ fn rel_close(x: f64, y: f64, tol: f64) -> bool {
 }
 
 fn gen_reg(cx: &mut Ctx, thorough: bool) {
-    let nrand = if thorough { 1200 } else { 400 };
+    let nrand = if thorough { 1200 } else { 300 };
     for it in 0..nrand {
         let mut r = cx.rng.fork();
         let n = if r.chance(0.08) { 60 + r.below(241) as usize } else { 1 + r.below(40) as usize };
@@ -653,7 +762,7 @@ fn gen_reg(cx: &mut Ctx, thorough: bool) {
             let (a, b, wc) = gen_reg_column(&mut r, n, fam);
             match reg_single(&a, &b) {
                 Ok(o) => {
-                    cx.reg_case(&a, &b, false, wc, &o, fam, "single_target");
+                    cx.reg_case(&a, &b, 0, wc, &o, fam, "single_target");
                     // permutation invariance (Rust side)
                     if it % 2 == 0 && n >= 2 {
                         let pid = cx.next_id();
@@ -695,7 +804,7 @@ fn gen_reg(cx: &mut Ctx, thorough: bool) {
             match reg_multi(&am, &bm) {
                 Ok(o) => {
                     for j in 0..q {
-                        cx.reg_case(&cols[j].0, &cols[j].1, q >= 2, cols[j].2, &o[j], (fam + j as u64) % 8, if q >= 2 { "multi_target_strided" } else { "multi_target_one_column" });
+                        cx.reg_case(&cols[j].0, &cols[j].1, (q >= 2) as u64, cols[j].2, &o[j], (fam + j as u64) % 8, if q >= 2 { "multi_target_strided" } else { "multi_target_one_column" });
                     }
                 }
                 Err(e) => {
@@ -706,6 +815,15 @@ fn gen_reg(cx: &mut Ctx, thorough: bool) {
                 }
             }
         }
+    }
+    // malformed: vectors of different lengths. The scores do not check shapes (confusion_matrix does): ndarray
+    // broadcasts a length-1 operand and panics otherwise. Recorded as an observation (input distribution), no oracle.
+    for (na, nb) in [(3usize, 1usize), (1, 3), (3, 2), (2, 3)] {
+        let a: Array1<f64> = (0..na).map(|i| i as f64).collect();
+        let b: Array1<f64> = (0..nb).map(|i| 1.0 + i as f64).collect();
+        let res = guarded(std::panic::AssertUnwindSafe(|| a.mean_absolute_error(&b).map_err(|e| format!("{}", e))));
+        let what = match res { Ok(Ok(_)) => "returns_a_number", Ok(Err(_)) => "returns_err", Err(_) => "panics" };
+        cx.out.bump(&format!("reg_lengths_{}_vs_{}_{}", na, nb, what));
     }
     // malformed: empty vectors -> the mean-based scores return Err(NotEnoughSamples)
     {
@@ -718,6 +836,196 @@ fn gen_reg(cx: &mut Ctx, thorough: bool) {
         }
         cx.out.rust_eval(&d, None);
         cx.out.bump("reg_empty");
+    }
+}
+
+/// every length 1..=48 (both parities) with pairwise distinct absolute errors in random order: the median must
+/// be the middle of the *sorted* errors (a selection that leaves the lower half unsorted shows for even n > 16)
+fn gen_reg_median(cx: &mut Ctx, thorough: bool) {
+    let base = if thorough { 6 } else { 2 };
+    for n in 1..=48usize {
+        // even lengths above 16 get two more cases whose error vector is arranged so that a median-of-three pivot
+        // taken at positions 0, 4(n/8), 7(n/8) is the upper median itself: a quickselect then stops at once and
+        // leaves the lower half in partition order
+        let reps = if n > 16 && n % 2 == 0 { base + 2 } else { base };
+        for rep in 0..reps {
+            let mut r = cx.rng.fork();
+            let adversarial = rep >= base;
+            let (a, b): (Vec<f64>, Vec<f64>) = if rep % 2 == 0 || adversarial {
+                // dyadic data: errors +-(i+1)/8, all sums exact
+                let b: Vec<f64> = (0..n).map(|_| dy(&mut r, -64, 64, 3)).collect();
+                let mut mags: Vec<f64> = (0..n).map(|i| (i as f64 + 1.0) / 8.0).collect();
+                r.shuffle(&mut mags);
+                if adversarial {
+                    let upper = (n / 2 + 1) as f64 / 8.0; // the element of rank n/2 (0-based) of the sorted errors
+                    let (pb, pc) = (4 * (n / 8), 7 * (n / 8));
+                    let swap_to = |m: &mut Vec<f64>, pos: usize, pred: &dyn Fn(f64) -> bool| {
+                        if let Some(k) = (0..m.len()).find(|&k| k != 0 && pred(m[k])) {
+                            m.swap(pos, k);
+                        }
+                    };
+                    let k0 = mags.iter().position(|m| *m == upper).unwrap();
+                    mags.swap(0, k0);
+                    swap_to(&mut mags, pb, &|m| m < upper);
+                    if !(mags[pc] > upper) {
+                        if let Some(k) = (1..n).find(|&k| k != pb && mags[k] > upper) {
+                            mags.swap(pc, k);
+                        }
+                    }
+                }
+                let a: Vec<f64> = b.iter().zip(&mags).map(|(y, m)| if r.chance(0.5) { y + m } else { y - m }).collect();
+                (a, b)
+            } else {
+                let b: Vec<f64> = (0..n).map(|_| 3.0 * r.gauss()).collect();
+                let a: Vec<f64> = b.iter().map(|y| y + r.gauss()).collect();
+                (a, b)
+            };
+            // alternate the call forms: contiguous arrays / strided receiver and reversed truth
+            let (res, lay, form) = if rep % 4 < 2 {
+                (reg_single(&a, &b), 0, if adversarial { "median_lengths_pivot" } else { "median_lengths" })
+            } else {
+                let (sa, sb) = (Strided1::new(&a, 2), Strided1::new(&b, -1));
+                let l = lay1(&sb.view());
+                (reg_single_v(sa.view(), sb.view()), l, if adversarial { "median_lengths_pivot_views" } else { "median_lengths_views" })
+            };
+            match res {
+                Ok(o) => cx.reg_case(&a, &b, lay, true, &o, 0, form),
+                Err(e) => {
+                    let id = cx.next_id();
+                    let d = format!("{{\"metric\": \"regression\", \"form\": {}, \"a\": {}, \"b\": {}}}", jstr(form), jf64s(&a), jf64s(&b));
+                    cx.out.rust_fail(id, O_FAIL, &["reg"], &format!("regression score failed on valid input: {}", e), &d);
+                    cx.out.rust_eval(&d, None);
+                }
+            }
+        }
+    }
+}
+
+/// `SingleTargetRegression` on non-contiguous one-dimensional views (steps 2, 3, -1, -2, -3, matrix columns, matrix
+/// rows of a column-major matrix) and through the `DatasetBase` implementation
+fn gen_reg_layouts(cx: &mut Ctx, thorough: bool) {
+    let nrand = if thorough { 480 } else { 144 };
+    for it in 0..nrand {
+        let mut r = cx.rng.fork();
+        let n = 1 + r.below(44) as usize;
+        let fam = r.below(8);
+        let (a, b, wc) = gen_reg_column(&mut r, n, fam);
+        let form = it % 9;
+        let (res, lay, name) = match form {
+            0..=5 => {
+                let (sa, sb, name): (isize, isize, &str) = match form {
+                    0 => (2, 1, "view_a_step2"),
+                    1 => (1, 2, "view_b_step2"),
+                    2 => (-1, -1, "view_both_reversed"),
+                    3 => (3, -2, "view_a_step3_b_stepm2"),
+                    4 => (1, -1, "view_b_reversed"),
+                    _ => (-3, 3, "view_a_stepm3_b_step3"),
+                };
+                let (va, vb) = (Strided1::new(&a, sa), Strided1::new(&b, sb));
+                let l = lay1(&vb.view());
+                (reg_single_v(va.view(), vb.view()), l, name)
+            }
+            6 => {
+                // columns of two row-major matrices with three columns
+                let (ja, jb) = (r.below(3) as usize, r.below(3) as usize);
+                let ma = Array2::from_shape_fn((n, 3), |(i, j)| if j == ja { a[i] } else { f64::NAN });
+                let mb = Array2::from_shape_fn((n, 3), |(i, j)| if j == jb { b[i] } else { f64::NAN });
+                let l = lay1(&mb.column(jb));
+                (reg_single_v(ma.column(ja), mb.column(jb)), l, "matrix_columns")
+            }
+            7 => {
+                // rows of a column-major matrix (strided) against a row of a row-major matrix (contiguous)
+                let ma = Array2::from_shape_fn((2, n).f(), |(i, j)| if i == 1 { a[j] } else { f64::NAN });
+                let mb = Array2::from_shape_fn((2, n), |(i, j)| if i == 0 { b[j] } else { f64::NAN });
+                let l = lay1(&mb.row(0));
+                (reg_single_v(ma.row(1), mb.row(0)), l, "matrix_rows")
+            }
+            _ => {
+                // DatasetBase receiver (targets = a strided view), reversed or strided truth
+                let sb = if it % 2 == 0 { -1 } else { 2 };
+                let (va, vb) = (Strided1::new(&a, 2), Strided1::new(&b, sb));
+                let l = lay1(&vb.view());
+                (reg_single_ds(va.view(), vb.view()), l, "dataset_receiver")
+            }
+        };
+        match res {
+            Ok(o) => cx.reg_case(&a, &b, lay, wc, &o, fam, name),
+            Err(e) => {
+                let id = cx.next_id();
+                let d = format!("{{\"metric\": \"regression\", \"form\": {}, \"a\": {}, \"b\": {}}}", jstr(name), jf64s(&a), jf64s(&b));
+                cx.out.rust_fail(id, O_FAIL, &["reg"], &format!("regression score failed on a valid non-contiguous view: {}", e), &d);
+                cx.out.rust_eval(&d, None);
+            }
+        }
+    }
+}
+
+/// `MultiTargetRegression` as a whole: two n x q matrices in seven memory layouts (independently for the receiver
+/// and the compared-to matrix), also through `DatasetBase`, also with different column counts (zip truncates)
+fn gen_reg_matrix(cx: &mut Ctx, thorough: bool) {
+    let nrand = if thorough { 360 } else { 112 };
+    for it in 0..nrand {
+        let mut r = cx.rng.fork();
+        let n = if it % 5 == 0 { 18 + 2 * r.below(12) as usize } else { 1 + r.below(40) as usize };
+        let q = 1 + r.below(3) as usize;
+        let fam = r.below(8);
+        let cols: Vec<(Vec<f64>, Vec<f64>, bool)> = (0..q).map(|j| gen_reg_column(&mut r, n, (fam + j as u64) % 8)).collect();
+        // different column counts in one case out of twelve: the receiver or the truth gets an extra column
+        let (qa, qb) = if it % 12 == 7 { if r.chance(0.5) { (q + 1, q) } else { (q, q + 1) } } else { (q, q) };
+        let extra: Vec<f64> = (0..n).map(|_| r.gauss()).collect();
+        let rows_a: Vec<Vec<f64>> = (0..n).map(|i| (0..qa).map(|j| if j < q { cols[j].0[i] } else { extra[i] }).collect()).collect();
+        let rows_b: Vec<Vec<f64>> = (0..n).map(|i| (0..qb).map(|j| if j < q { cols[j].1[i] } else { extra[i] }).collect()).collect();
+        let (ka, kb) = (r.below(MAT_KINDS), (it as u64) % MAT_KINDS);
+        let (sa, sb) = (mat_store(&rows_a, qa, ka), mat_store(&rows_b, qb, kb));
+        let (va, vb) = (mat_view(&sa, ka), mat_view(&sb, kb));
+        assert_eq!(rows_of(&va), rows_a);
+        assert_eq!(rows_of(&vb), rows_b);
+        let lay = lay1(&vb.column(0));
+        let through_ds = it % 6 == 5;
+        let id = cx.next_id();
+        let form = if qa != qb { "matrix_column_counts_differ" } else if through_ds { "matrix_dataset_receiver" } else { "matrix" };
+        let desc = format!(
+            "{{\"metric\": \"multi-target regression\", \"form\": {}, \"n\": {}, \"qa\": {}, \"qb\": {}, \"layout_a\": {}, \"layout_b\": {}, \"column_layout_of_truth\": {}, \"A_rows\": {}, \"B_rows\": {}}}",
+            jstr(form), n, qa, qb, jstr(MAT_KIND_NAMES[ka as usize]), jstr(MAT_KIND_NAMES[kb as usize]), lay, jf64s(&rows_a.concat()), jf64s(&rows_b.concat())
+        );
+        let lname = format!("layout_b_{}", MAT_KIND_NAMES[kb as usize]);
+        let tags = ["reg_multi", form, &lname[..]];
+        cx.out.bump(&format!("regm_{}", form));
+        cx.out.bump(&format!("regm_{}", lname));
+        cx.out.bump(&format!("regm_layout_a_{}", MAT_KIND_NAMES[ka as usize]));
+        cx.out.bump(&format!("regm_truth_column_layout_{}", lay));
+        cx.out.bump(&format!("regm_q_{}", q));
+        if n > 16 && n % 2 == 0 { cx.out.bump("regm_even_length_above_16"); }
+        match reg_multi_v(va, vb, through_ds) {
+            Ok(res) => {
+                if !cx.out.wanted(id) { continue; }
+                let oks: Vec<bool> = res.iter().map(|x| x.is_ok()).collect();
+                let outs: Vec<Vec<f64>> = res.iter().map(|x| x.clone().unwrap_or_default()).collect();
+                let orc: Vec<bool> = (0..q).map(|j| cols[j].2 && n <= 48).collect();
+                let coq = format!(
+                    "CMreg {{| mg_id := {}%N; mg_A := {}; mg_qa := {}%N; mg_B := {}; mg_qb := {}%N; mg_lay := {}%N; mg_oracle := {}; mg_ok := {}; mg_out := {} |}}",
+                    id, cmat64(&rows_a), qa, cmat64(&rows_b), qb, lay, blist(&orc), blist(&oks), cmat64(&outs)
+                );
+                let key = if n >= 2 { Some(fnv_f64s(&[rows_a.concat(), rows_b.concat()].concat(), 11 + ka * 7 + kb + 64 * (qa as u64))) } else { None };
+                cx.out.case(id, &coq, &tags, &desc, key);
+            }
+            Err(e) => {
+                cx.out.rust_fail(id, O_FAIL, &tags, &format!("multi-target regression score panicked on valid input: {}", e), &desc);
+                cx.out.rust_eval(&desc, None);
+            }
+        }
+    }
+    // malformed: no samples but two target columns -> every mean-based score is Err(NotEnoughSamples)
+    {
+        let id = cx.next_id();
+        let (a, b): (Array2<f64>, Array2<f64>) = (Array2::zeros((0, 2)), Array2::zeros((0, 2)));
+        let d = "{\"metric\": \"multi-target regression\", \"input\": \"0 x 2 matrices\"}".to_string();
+        let errs = [a.mean_absolute_error(&b).is_err(), a.mean_squared_error(&b).is_err(), a.mean_absolute_percentage_error(&b).is_err(), a.r2(&b).is_err(), a.explained_variance(&b).is_err(), a.mean_squared_log_error(&b).is_err()];
+        if !errs.iter().all(|e| *e) {
+            cx.out.rust_fail(id, O_FAIL, &["reg_multi"], "a mean-based multi-target score of 0 x 2 matrices did not return Err(NotEnoughSamples)", &d);
+        }
+        cx.out.rust_eval(&d, None);
+        cx.out.bump("regm_empty");
     }
 }
 
@@ -810,10 +1118,15 @@ fn gen_sil(cx: &mut Ctx, thorough: bool) {
 // =====================================================================================
 // Pearson
 // =====================================================================================
-fn run_pearson(x: &[Vec<f64>]) -> Result<Vec<f64>, String> {
+/// coefficients of the data matrix (rows = observations) stored in memory layout `kind` (see mat_store)
+fn run_pearson(x: &[Vec<f64>], kind: u64) -> Result<Vec<f64>, String> {
     let p = x[0].len();
-    let xa = Array2::from_shape_vec((x.len(), p), x.concat()).unwrap();
-    guarded(move || DatasetBase::from(xa).pearson_correlation().get_coeffs().to_vec())
+    let store = mat_store(x, p, kind);
+    guarded(std::panic::AssertUnwindSafe(move || {
+        let v = mat_view(&store, kind);
+        assert_eq!(rows_of(&v), x);
+        DatasetBase::from(v).pearson_correlation().get_coeffs().to_vec()
+    }))
 }
 
 fn gen_pearson(cx: &mut Ctx, thorough: bool) {
@@ -848,12 +1161,35 @@ fn gen_pearson(cx: &mut Ctx, thorough: bool) {
                 .collect();
             (x, true)
         };
+        // a column without spread in one case out of five (two of them now and then): its standard deviation is
+        // exactly zero, every coefficient that involves it is undefined, the others must not be disturbed
+        let mut x = x;
+        let mut wellcond = wellcond;
+        let nconst = if it % 5 == 3 { if p >= 3 && r.chance(0.3) { 2 } else { 1 } } else { 0 };
+        let jc0 = r.below(p as u64) as usize;
+        for c in 0..nconst {
+            let jc = if c == 0 { jc0 } else { (jc0 + 1 + r.below(p as u64 - 1) as usize) % p };
+            let v = if exact { r.range(-8, 8) as f64 } else { *r.pick(&[0.1, 3.7, -2.5, 1e6 + 0.3, 0.0, 1.0 / 3.0]) };
+            for row in x.iter_mut() {
+                row[jc] = v;
+            }
+        }
+        let is_const: Vec<bool> = (0..p).map(|j| x.iter().all(|row| row[j] == x[0][j])).collect();
+        if exact {
+            // the oracle decides constant columns itself (exactly zero spread -> the coefficient must not be finite)
+            wellcond = true;
+        }
+        let kind = r.below(MAT_KINDS);
         let id = cx.next_id();
-        let desc = format!("{{\"metric\": \"pearson\", \"exact_stream\": {}, \"n\": {}, \"p\": {}, \"X\": {}}}", exact, x.len(), p, jf64s(&x.concat()));
-        let tags = ["pearson"];
+        let desc = format!("{{\"metric\": \"pearson\", \"exact_stream\": {}, \"n\": {}, \"p\": {}, \"layout\": {}, \"constant_columns\": {:?}, \"X\": {}}}", exact, x.len(), p, jstr(MAT_KIND_NAMES[kind as usize]), is_const, jf64s(&x.concat()));
+        let lname = format!("pearson_layout_{}", MAT_KIND_NAMES[kind as usize]);
+        let ctag = if is_const.iter().any(|b| *b) { "pearson_constant_column" } else { "pearson_no_constant_column" };
+        let tags = ["pearson", &lname[..], ctag];
         cx.out.bump(if exact { "pearson_exact_dyadic" } else { "pearson_general" });
         cx.out.bump(&format!("pearson_p_{}", p));
-        match run_pearson(&x) {
+        cx.out.bump(&lname);
+        cx.out.bump(ctag);
+        match run_pearson(&x, kind) {
             Ok(c) => {
                 if cx.out.wanted(id) {
                     let coq = format!(
@@ -868,7 +1204,7 @@ fn gen_pearson(cx: &mut Ctx, thorough: bool) {
                     cx.rng.shuffle(&mut idx);
                     let x2: Vec<Vec<f64>> = idx.iter().map(|&i| x[i].clone()).collect();
                     let d2 = format!("{{\"metric\": \"pearson rows permuted\", \"of_case\": {}, \"perm\": {:?}}}", id, idx);
-                    let same = match run_pearson(&x2) { Ok(c2) => c.len() == c2.len() && c.iter().zip(&c2).all(|(a, b)| rel_close(*a, *b, 1e-9)), Err(_) => false };
+                    let same = match run_pearson(&x2, (kind + 1) % MAT_KINDS) { Ok(c2) => c.len() == c2.len() && c.iter().zip(&c2).all(|(a, b)| rel_close(*a, *b, 1e-9) || (!a.is_finite() && !b.is_finite())), Err(_) => false };
                     if !same {
                         cx.out.rust_fail(pid, O_PERM, &["pearson", "perm"], "Pearson coefficients changed under a permutation of the observations", &d2);
                     }
@@ -893,12 +1229,18 @@ fn main() {
     gen_cm(&mut cx, thorough);
     gen_roc(&mut cx, thorough);
     gen_reg(&mut cx, thorough);
+    gen_reg_median(&mut cx, thorough);
+    gen_reg_layouts(&mut cx, thorough);
+    gen_reg_matrix(&mut cx, thorough);
     gen_sil(&mut cx, thorough);
     gen_pearson(&mut cx, thorough);
     cx.out.finish(
         "confusion matrices: every pair of label vectors up to the exhaustive bound (usize/bool/String) + random longer ones with differing label sets; \
          ROC/AUC/log-loss: every score vector over {0,1/4,1/2,3/4,1} with every two-class labelling + random vectors with ties, boundary scores and near-threshold gaps; \
-         regression: 8 data families x single/multi-target; silhouette: 5 families; Pearson: exact dyadic and general data. \
+         regression: 8 data families x single/multi-target (per column), every length 1..48 with distinct absolute errors (median; even lengths above 16 also in a \
+         pivot-adversarial order), single-target calls on views with steps 2, 3, -1, -2, -3 / matrix columns / rows / DatasetBase receivers, whole multi-target calls on \
+         matrices in seven memory layouts (also through DatasetBase, also with differing column counts); silhouette: 5 families; Pearson: exact dyadic and general data in \
+         seven memory layouts, one case in five with one or two constant columns. \
          A case is non-trivial when it has >= 2 classes / both classes / non-constant truth / >= 2 clusters / >= 2 features; distinct = distinct input hashes",
     );
 }
